@@ -162,9 +162,9 @@ func checkC18(c *Check) {
 	cached, gerr := G+"#0", G+"#1"
 	base := D + "(p0, p1, recv.httpClient)"
 	b0, berr := base+"#0", base+"#1"
-	idx := findExtIdx(b0+".Extensions", oidFreshest)
-	urls := P + "(" + b0 + ".Extensions[" + idx + "].Value)#0"
-	perr := P + "(" + b0 + ".Extensions[" + idx + "].Value)#1"
+	noFreshest := extAbsent(b0+".Extensions", oidFreshest)
+	urls := P + "(" + extValue(b0+".Extensions") + ")#0"
+	perr := P + "(" + extValue(b0+".Extensions") + ")#1"
 	delta := D + "(p0, re(" + urls + "), recv.httpClient)"
 	// the not-found sentinel: an unexported package-level error referenced only where it is
 	// produced (return operands) and where it is compared (errors.Is). Hence no other
@@ -288,7 +288,7 @@ func checkC18(c *Check) {
 	}
 	c.floor("base-only bundles", 1, len(nilDelta))
 	c.floor("bundles with delta", 1, len(withDelta))
-	c.mustPass(pg, "O-C18.4", "base-only bundle only when no delta is advertised", "returning a bundle without delta", nilDelta, AnyOf(A("+Lt("+idx+", 0)"), A("+Empty("+urls+")")))
+	c.mustPass(pg, "O-C18.4", "base-only bundle only when no delta is advertised", "returning a bundle without delta", nilDelta, AnyOf(noFreshest, A("+Empty("+urls+")")))
 	c.noPathFrom(pg, "O-C18.4", "no base-only bundle after trying the advertised URLs", "after the advertised delta URLs were tried a bundle without delta is not returned", RangeNext(urls), nilDelta, nil)
 	c.noPathFrom(pg, "O-C18.4", "no base-only bundle after a parse failure", "after the freshest-CRL extension failed to parse no bundle is returned", A("-IsNil("+perr+")"), freshRets, nil)
 	c.mustPass(pg, "O-C18.4", "delta bundle needs a successful delta download", "returning a bundle with delta", withDelta, A("+IsNil("+delta+"#1)"))
@@ -304,7 +304,7 @@ func checkC18(c *Check) {
 		}}
 		tg := edgeTargets(pg, isSent)
 		c.floor("sentinel origins", 2, len(distinctEdgeNodes(pg, isSent)))
-		c.mustPass(pg, "O-C18.4", "sentinel only when no delta is advertised", "producing the not-found sentinel", tg, AnyOf(A("+Lt("+idx+", 0)"), A("+Empty("+urls+")")))
+		c.mustPass(pg, "O-C18.4", "sentinel only when no delta is advertised", "producing the not-found sentinel", tg, AnyOf(noFreshest, A("+Empty("+urls+")")))
 	}
 	// (6)
 	checkNoSharedState(c, "O-C18.6")
